@@ -2,7 +2,7 @@
     oracle, compare with what the implementation did.  Executable only. *)
 From Coq Require Import List NArith ZArith Bool String.
 From ApiFu Require Import Base.Sexp Intro.Utf8 Intro.IntrospectModel Intro.MarshalValue
-     Intro.LiteralSpec Intro.IntrospectSpec Intro.Rebuild Intro.RebuildSpec.
+     Intro.LiteralSpec Intro.IntrospectSpec Intro.Rebuild Intro.RebuildSpec Intro.Clone.
 Import ListNotations.
 Open Scope string_scope.
 
@@ -702,7 +702,7 @@ Fixpoint docs_oracle (ds : list doc_obs) : option string :=
   | d :: r =>
       if String.eqb (d_orig d) "panic" || String.eqb (d_rebuilt d) "panic" then docs_oracle r
       else if String.eqb (d_orig d) (d_rebuilt d) then docs_oracle r
-      else Some (if d_picky d then "rebuilt-custom-scalar-accepts-any-literal" else "verdict-differs")
+      else Some (if d_picky d then "rebuilt-scalar-accepts-any-literal" else "verdict-differs")
   end.
 
 Definition count_docs (p : doc_obs -> bool) (ds : list doc_obs) : nat := List.length (filter p ds).
@@ -767,11 +767,266 @@ Definition check_rebuild (l : list sexp) : sexp :=
   | _, _, _, _, _ => v_bad "fields"
   end.
 
+(** ** clone cases: pointer graphs *)
+Fixpoint dec_gsty (fuel : nat) (s : sexp) : option gsty :=
+  match fuel with
+  | O => None
+  | S f =>
+      match s with
+      | SL [SSym t; SStr n; i] => if String.eqb t "ref" then do x <- as_N i; Some (GtNamed n x) else None
+      | SL [SSym t; i; u] =>
+          if String.eqb t "list" then do x <- as_N i; do v <- dec_gsty f u; Some (GtList x v)
+          else if String.eqb t "nn" then do x <- as_N i; do v <- dec_gsty f u; Some (GtNonNull x v)
+          else None
+      | _ => None
+      end
+  end.
+
+Definition dec_gset (s : sexp) : option gset :=
+  if is_sym "nil" s then Some None
+  else match tagged "set" s with
+       | Some (i :: fs) => do x <- as_N i; do l <- map_opt as_bytes fs; Some (Some (x, l))
+       | _ => None
+       end.
+
+Definition dec_gmap {A} (f : sexp -> option (name * A)) (s : sexp) : option (gmap A) :=
+  if is_sym "nil" s then Some None
+  else match tagged "map" s with
+       | Some (i :: es) => do x <- as_N i; do l <- map_opt f es; Some (Some (x, l))
+       | _ => None
+       end.
+
+Definition dec_ref (s : sexp) : option (name * id) :=
+  match tagged "ref" s with
+  | Some [SStr n; i] => do x <- as_N i; Some (n, x)
+  | _ => None
+  end.
+
+Definition dec_gslice (s : sexp) : option gslice :=
+  if is_sym "nil" s then Some None
+  else match tagged "slice" s with
+       | Some (i :: es) => do x <- as_N i; do l <- map_opt dec_ref es; Some (Some (x, l))
+       | _ => None
+       end.
+
+Definition dec_giv (s : sexp) : option (name * g_input) :=
+  match tagged "iv" s with
+  | Some [SStr n; i; t; SStr desc; d] =>
+      do x <- as_N i; do ty <- dec_gsty sty_fuel t; do dv <- as_option (dec_gval gval_fuel) d;
+      Some (n, {| gi_self := x; gi_type := ty; gi_default := dv; gi_desc := desc |})
+  | _ => None
+  end.
+
+Definition dec_gfd (s : sexp) : option (name * g_field) :=
+  match tagged "fd" s with
+  | Some [SStr n; i; t; SStr desc; SStr depr; req; SL [SSym a; args]] =>
+      if negb (String.eqb a "args") then None else
+      do x <- as_N i; do ty <- dec_gsty sty_fuel t; do rq <- dec_gset req; do am <- dec_gmap dec_giv args;
+      Some (n, {| gf_self := x; gf_type := ty; gf_args := am; gf_features := rq; gf_deprecation := depr; gf_desc := desc |})
+  | _ => None
+  end.
+
+Definition dec_gval_entry (s : sexp) : option (name * g_enum_val) :=
+  match tagged "val" s with
+  | Some [SStr n; i; g; SStr d; SStr dep] =>
+      do x <- as_N i; do gv <- dec_gval gval_fuel g;
+      Some (n, {| gv_self := x; gv_value := gv; gv_desc := d; gv_deprecation := dep |})
+  | _ => None
+  end.
+
+Definition dec_gnamed (s : sexp) : option (name * g_named) :=
+  match untag s with
+  | Some (t, i :: SStr n :: rest) =>
+      do self <- as_N i;
+      if String.eqb t "scalar" then
+        match rest with
+        | [b; aa; req; SStr desc] => do bi <- as_bool b; do ac <- as_bool aa; do rq <- dec_gset req; Some (n, GScalar self bi ac rq desc)
+        | _ => None
+        end
+      else if String.eqb t "enum" then
+        match rest with
+        | [req; SStr desc; SL [SSym v; vals]] => do rq <- dec_gset req; do vs <- dec_gmap dec_gval_entry vals; Some (n, GEnum self vs rq desc)
+        | _ => None
+        end
+      else if String.eqb t "input" then
+        match rest with
+        | [req; rc; SStr desc; SL [SSym f; fields]] =>
+            do rq <- dec_gset req; do r <- as_bool rc; do fs <- dec_gmap dec_giv fields; Some (n, GInput self fs rq r desc)
+        | _ => None
+        end
+      else if String.eqb t "object" then
+        match rest with
+        | [req; SStr desc; SL [SSym i'; ifs]; SL [SSym f; fields]] =>
+            do rq <- dec_gset req; do is <- dec_gslice ifs; do fs <- dec_gmap dec_gfd fields; Some (n, GObject self fs is rq desc)
+        | _ => None
+        end
+      else if String.eqb t "interface" then
+        match rest with
+        | [req; SStr desc; SL [SSym f; fields]] => do rq <- dec_gset req; do fs <- dec_gmap dec_gfd fields; Some (n, GInterface self fs rq desc)
+        | _ => None
+        end
+      else if String.eqb t "union" then
+        match rest with
+        | [req; SStr desc; SL [SSym m; ms]] => do rq <- dec_gset req; do mm <- dec_gslice ms; Some (n, GUnion self mm rq desc)
+        | _ => None
+        end
+      else None
+  | _ => None
+  end.
+
+Definition dec_glocs (s : sexp) : option glocs :=
+  if is_sym "nil" s then Some None
+  else match tagged "slice" s with
+       | Some (i :: ls) => do x <- as_N i; do l <- map_opt as_bytes ls; Some (Some (x, l))
+       | _ => None
+       end.
+
+Definition dec_gdir (s : sexp) : option (name * g_dir) :=
+  match tagged "dir" s with
+  | Some [SStr n; i; SStr desc; SL [SSym l; locs]; SL [SSym a; args]] =>
+      do x <- as_N i; do ls <- dec_glocs locs; do am <- dec_gmap dec_giv args;
+      Some (n, {| gd_self := x; gd_args := am; gd_locs := ls; gd_desc := desc |})
+  | _ => None
+  end.
+
+Definition dec_gschema (s : sexp) : option g_schema :=
+  match tagged "gschema" s with
+  | Some l =>
+      match field1 "self" l, field "types" l, field1 "query" l, field1 "mutation" l, field1 "subscription" l,
+            field1 "additional" l, field1 "directives" l with
+      | Some i, Some ts, Some q, Some m, Some su, Some add, Some ds =>
+          do self <- as_N i;
+          do tys <- map_opt dec_gnamed ts;
+          do qq <- as_option dec_ref q;
+          do mu <- as_option dec_ref m;
+          do sb <- as_option dec_ref su;
+          do ad <- dec_gslice add;
+          do dirs <- dec_gmap dec_gdir ds;
+          match qq with
+          | Some qr => Some {| g_self := self; g_types := tys; g_query := qr; g_mutation := mu; g_subscription := sb;
+                               g_additional := ad; g_directives := dirs |}
+          | None => None
+          end
+      | _, _, _, _, _, _, _ => None
+      end
+  | None => None
+  end.
+
+(** every identity of a graph in a fixed traversal order, nil containers as -1 (so that two graphs
+    of the same definition can be compared position by position) *)
+Definition zid (i : id) : Z := Z.of_N i.
+Fixpoint sig_ty (t : gsty) : list Z :=
+  match t with GtNamed _ tg => [zid tg] | GtList s u => zid s :: sig_ty u | GtNonNull s u => zid s :: sig_ty u end.
+Definition sig_set (s : gset) : list Z := match s with Some (i, _) => [zid i] | None => [(-1)%Z] end.
+Definition sig_map {A} (f : A -> list Z) (m : gmap A) : list Z :=
+  match m with Some (i, l) => (zid i :: flat_map (fun kv => f (snd kv)) l)%list | None => [(-1)%Z] end.
+Definition sig_slice (s : gslice) : list Z :=
+  match s with Some (i, l) => (zid i :: map (fun e => zid (snd e)) l)%list | None => [(-1)%Z] end.
+Definition sig_input (i : g_input) : list Z := (zid (gi_self i) :: sig_ty (gi_type i))%list.
+Definition sig_field (f : g_field) : list Z :=
+  (zid (gf_self f) :: sig_ty (gf_type f) ++ sig_map sig_input (gf_args f) ++ sig_set (gf_features f))%list.
+Definition sig_named (t : g_named) : list Z :=
+  match t with
+  | GScalar s _ _ r _ => (zid s :: sig_set r)%list
+  | GEnum s vs r _ => (zid s :: sig_map (fun v => [zid (gv_self v)]) vs ++ sig_set r)%list
+  | GInput s fs r _ _ => (zid s :: sig_map sig_input fs ++ sig_set r)%list
+  | GObject s fs ifs r _ => (zid s :: sig_map sig_field fs ++ sig_slice ifs ++ sig_set r)%list
+  | GInterface s fs r _ => (zid s :: sig_map sig_field fs ++ sig_set r)%list
+  | GUnion s ms r _ => (zid s :: sig_slice ms ++ sig_set r)%list
+  end.
+Definition sig_dir (d : g_dir) : list Z :=
+  (zid (gd_self d) :: sig_map sig_input (gd_args d) ++ match gd_locs d with Some (i, _) => [zid i] | None => [(-1)%Z] end)%list.
+Definition signature (G : g_schema) : list Z :=
+  (zid (g_self G) :: flat_map (fun t => sig_named (snd t)) (g_types G)
+   ++ [zid (snd (g_query G))] ++ match g_mutation G with Some r => [zid (snd r)] | None => [(-1)%Z] end
+   ++ match g_subscription G with Some r => [zid (snd r)] | None => [(-1)%Z] end
+   ++ sig_slice (g_additional G) ++ sig_map sig_dir (g_directives G))%list.
+
+(** observed clone vs model clone: the same identities where they are old ones, and a bijection
+    between the fresh ones *)
+Definition zmem (x : Z) (l : list Z) : bool := existsb (Z.eqb x) l.
+Fixpoint iso_ids (old : list Z) (next : Z) (pairs : list (Z * Z)) (obs model : list Z) : bool :=
+  match obs, model with
+  | [], [] => true
+  | o :: obs', m :: model' =>
+      if Z.leb o 0 || Z.leb m 0 then Z.eqb o m && iso_ids old next pairs obs' model'
+      else if zmem o old then Z.eqb o m && iso_ids old next pairs obs' model'
+      else if Z.ltb m next then false                       (* the model says: an old object *)
+      else match find (fun p => Z.eqb (fst p) o) pairs, find (fun p => Z.eqb (snd p) m) pairs with
+           | Some p, _ => Z.eqb (snd p) m && iso_ids old next pairs obs' model'
+           | None, Some _ => false
+           | None, None => iso_ids old next ((o, m) :: pairs) obs' model'
+           end
+  | _, _ => false
+  end.
+
+Definition sort_gtypes (G : g_schema) : g_schema :=
+  {| g_self := g_self G; g_types := sort_by fst (g_types G); g_query := g_query G; g_mutation := g_mutation G;
+     g_subscription := g_subscription G; g_additional := g_additional G; g_directives := g_directives G |}.
+
+Definition max_id (G : g_schema) : N := fold_right N.max 0%N (ids G).
+
+Definition check_clone (l : list sexp) : sexp :=
+  match field1 "orig" l, field1 "clone" l, field1 "orig-after" l, field1 "shared" l, field1 "clone-new" l with
+  | Some g0, Some g1, Some g2, Some (SL sh), Some (SSym cn) =>
+      match dec_gschema g0, dec_gschema g1, dec_gschema g2 with
+      | Some G0, Some G1, Some G2 =>
+          let old := map zid (ids G0) in
+          let builtins := map zid (builtin_ids G0) in
+          (* 1. oracle *)
+          let shared_ids := filter (fun i => zmem i old && negb (zmem i builtins)) (map zid (ids G1)) in
+          let oracle :=
+            match def_diff (strip G1) (strip G0) with
+            | Some w => Some ("clone-differs-" ++ w)
+            | None =>
+                match sh with
+                | SSym w :: _ => Some ("clone-shares-" ++ w)
+                | _ =>
+                    match shared_ids with
+                    | _ :: _ => Some "clone-shares-structure"
+                    | [] =>
+                        match def_diff (strip G2) (strip G0) with
+                        | Some w => Some ("original-changed-by-mutating-clone-" ++ w)
+                        | None => if String.eqb cn "ok" then None else Some "clone-rejected-by-schema-New"
+                        end
+                    end
+                end
+            end in
+          match oracle with
+          | Some key => v_oracle_fail key []
+          | None =>
+              (* 2. the model of deepCopySchemaDefinition on the same graph *)
+              let next := N.succ (max_id G0) in
+              match clone G0 next with
+              | CloneOutOfFuel => v_mismatch "clone-model-out-of-fuel" []
+              | ClonePanic => v_mismatch "clone-model-panics" []
+              | Cloned M _ =>
+                  let M := sort_gtypes M in
+                  match def_diff (strip G1) (strip M) with
+                  | Some w => v_mismatch ("clone-model-" ++ w) []
+                  | None =>
+                      if negb (iso_ids old (Z.of_N next) [] (signature G1) (signature M)) then v_mismatch "clone-identities" []
+                      else
+                        (* 3. the clone introspects like the definition it was made from *)
+                        match check_intro l with
+                        | SL (SSym t :: cls) =>
+                            if String.eqb t "ok" then SL (SSym "ok" :: SSym "clone" :: cls) else SL (SSym t :: cls)
+                        | x => x
+                        end
+                  end
+              end
+          end
+      | _, _, _ => v_bad "decode-graph"
+      end
+  | _, _, _, _, _ => v_bad "fields"
+  end.
+
 Definition check (c : sexp) : sexp :=
   match tagged "case" c with
   | Some (SSym k :: l) =>
       if String.eqb k "intro" then check_intro l
       else if String.eqb k "rebuild" then check_rebuild l
+      else if String.eqb k "clone" then check_clone l
       else v_bad "kind"
   | _ => v_bad "shape"
   end.
